@@ -351,6 +351,8 @@ def oracle_c05(res, i):
         return f'MISMATCH values do not round-trip once the index is regenerated from the blob: {out}'
     if cmd[0] == 'flipsweep' and not out.startswith('sweep ok'):
         return f'MISMATCH altered data bytes: {out}'
+    if cmd[0] == 'metasweep' and not out.startswith('sweep ok'):
+        return f'MISMATCH metadata / data do not round-trip: {out}'
     if cmd[0] in ('r', 'ram') and ':?' in out:
         return f'MISMATCH a read returned bytes that were never written: {out}'
     return None
@@ -382,12 +384,14 @@ def bytes_features(lines):
             f.add('meta ' + ('none' if t[3] == '-' else 'empty' if t[3] == 'e' else 'one entry'))
         if t[0] == 'flipsweep':
             f.add('flipsweep')
+        if t[0] == 'metasweep':
+            f.add('metasweep (multi-attribute / non-ASCII metadata)')
     return f
 
 
 PROPS['C05'] = dict(
     gen=lambda rng, tier: gen.bytes_scenario(rng, size=tier),
-    p_cmds={'r', 'ram', 'flipsweep', 'dmgsweep', 'w'},
+    p_cmds={'r', 'ram', 'flipsweep', 'dmgsweep', 'metasweep', 'w'},
     oracle_cmds={'r', 'ram', 'states'}, py_oracle=oracle_c05,
     count={'quick': 48, 'thorough': 400}, timeout=1800,
     nontrivial=lambda lines: len({f for f in bytes_features(lines) if 'record' in f or 'len 0' in f}) >= 2,
